@@ -66,6 +66,14 @@ def gen(rng, tier):
             dec(rng.randrange(2), rng.randrange(2), rng.randrange(2), bytes(tup), "exhaustive-small")
     for _ in range(300 if tier == "quick" else 4000):
         L = rng.randrange(1, 30); alldec(bytes(rng.choice(STD + b"-_== \n\x80") for _ in range(L)), "random-mixed", 0.5)
+    # text that decodes to NOTHING (only whitespace, lenient mode) right after a successful decode into the same reused output objects, and NUL / control
+    # bytes that a whitespace test written with a C string might swallow
+    for ws in [b" ", b"\n", b"\r\n", b" \t ", b"\n\n\n\n", b"\x00", b"\x0b", b"\x0c", b"Zm9v\x00", b"Zm\x009v", b"Zg\x00=="]:
+        for url in (0, 1):
+            for req in (0, 1):
+                for strict in (0, 1):
+                    dec(url, req, strict, b"Zm9vYmFy", "prime-before-empty-result")
+                    dec(url, req, strict, ws, "decodes-to-nothing-or-control")
     # every API family once during static initialisation of the driver (before the library's own dynamic initialisers have run)
     cases.append(Case("staticinit", "static-initialisation battery", True, spec="staticinit"))
     return cases
